@@ -173,6 +173,82 @@ def neighbours(c, rng):
         out.append(dict(c, ops=ops))
     return out
 
+class UseSite:
+    """The per-test cycle report of the runner on real object graphs."""
+    CHK = CHK
+    LABEL = 'use-site'
+    CHECK_FN = 'check_use'
+    IMPORTS = IMPORTS
+    SHARD = 60
+    RULE = ('use-site batch: CLI runs with --gc-after-test -vvvv whose tests build random digraphs (<= 8 nodes, out-degree <= 5, self-loops, '
+            'several components, acyclic parts hanging off cycles) out of slotted objects and drop them; the "left cyclic garbage behind" '
+            'report of every test is parsed and compared with the cyclic components of that test\'s graph')
+    EXHAUSTIVE = {}
+
+    def generate(self, rng, tier, rep):
+        n = {'quick': 40, 'thorough': 400, 'search': 40}[tier]
+        cases = []
+        for _ in range(n):
+            graphs = []
+            for _ in range(rng.randint(1, 4)):
+                k = rng.randint(1, 8)
+                p = rng.choice([0.1, 0.2, 0.35])
+                adj = []
+                for a in range(k):
+                    succ = [b for b in range(k) if rng.random() < p][:5]
+                    if succ:
+                        adj.append([a, succ])
+                graphs.append({'nodes': list(range(k)), 'adj': adj})
+            cases.append({'graphs': graphs, 'options': rng.choice([[], [], ['--buffer'], ['--repeat', '2']])})
+            rep.count('use-site tests=%d' % len(graphs))
+        return cases
+
+    def observe(self, cases):
+        chunks = [cases[i:i + 3] for i in range(0, len(cases), 3)]
+        out = []
+        for r in fw.parallel_map(lambda ch: fw.run_py('impl_c20_use.py', {'cases': ch, 'scratch': fw.scratch()}), chunks):
+            out.extend(r)
+        return out
+
+    def to_coq(self, c, o):
+        # one Coq case per run: the graphs of its tests are put side by side (disjoint node numbers), the reports likewise;
+        # under --repeat every iteration reports again: the iterations must agree and are folded into one
+        ops, comps, off = [], [], 0
+        ok = True
+        for g, rep_ in zip(c['graphs'], o['reports']):
+            ops.append('(AddNodes %s)' % g_nats([off + x for x in g['nodes']]))
+            for a, succ in g['adj']:
+                ops.append('(AddNeighbors %d %s true)' % (off + a, g_nats([off + b for b in succ])))
+            reps = 2 if '--repeat' in c.get('options', []) else 1
+            if len(rep_) % reps:
+                ok = False
+            per = len(rep_) // reps if reps else 0
+            first = rep_[:per] if ok else rep_
+            for r in range(1, reps):
+                if sorted(sorted(x) for x in rep_[r * per:(r + 1) * per]) != sorted(sorted(x) for x in first):
+                    ok = False
+            comps += [[off + x if x != 9999 else 9999 for x in cyc] for cyc in (first if ok else rep_)]
+            off += len(g['nodes'])
+        return ('{| ops := %s; raised := false; g_nodes := []; g_adj := []; r_def := %s; r_triv := None |}' % (
+            g_list(ops), g_comps(comps if o['rc'] == 0 else None)))
+
+    def nontrivial(self, c):
+        return any(g['adj'] for g in c['graphs'])
+
+    def shrink_candidates(self, c):
+        gs = c['graphs']
+        for i in range(len(gs)):
+            if len(gs) > 1:
+                yield dict(c, graphs=gs[:i] + gs[i + 1:])
+        for i, g in enumerate(gs):
+            for j in range(len(g['adj'])):
+                yield dict(c, graphs=gs[:i] + [dict(g, adj=g['adj'][:j] + g['adj'][j + 1:])] + gs[i + 1:])
+        if c.get('options'):
+            yield dict(c, options=[])
+
+
+EXTRA_BATCHES = [UseSite()]
+
 TECHNIQUE = ('Coq proof by complete enumeration lifted with forallb_forall (bound stated in the theorem) over a step-machine '
              'model of the iterative Tarjan + correspondence check against DiGraph with the C20 predicate evaluated in Coq '
              "on the implementation's components")
